@@ -462,12 +462,14 @@ lemma_pow2_pos ( lg as nat ) ;
 let ghost z = lemma_fexists_empty ( st0 ) ;
 let len = self . keys . len ( ) ;
 let mut first_probe = len - 1 ;
-while self . states [ first_probe ] > 0 invariant self . states @ == st0 , 0 <= z <= first_probe < n , st0 [ z ] == 0 , len == n , n == st0 . len ( ) , decreases first_probe {
+#[verifier::loop_isolation(false)]
+while self . states [ first_probe ] > 0 invariant self . states @ == st0 , 0 <= z <= first_probe < n , st0 [ z ] == 0 , n == st0 . len ( ) , decreases first_probe {
 first_probe -= 1 ;
 }
 let mut vx_n1 = first_probe ;
 let vx_lo1 = 0 ;
-while vx_n1 > vx_lo1 invariant eq_law :: < T > ( ) , self . wf ( ) , runs_short ( self . states @ ) , self . lg_length == lg , self . load_threshold == old ( self ) . load_threshold , n == self . states @ . len ( ) , n == pow2 ( lg as nat ) , fshape ( ks0 , vs0 , st0 , lg ) , 0 <= vx_lo1 <= vx_n1 <= first_probe < n , vx_lo1 == 0 , len == n , self . states @ [ first_probe as int ] == 0 , keep_inv ( ks0 , vs0 , st0 , self . keys @ , self . values @ , self . states @ ) , self . num_active <= old ( self ) . num_active , self . num_active == old ( self ) . num_active ==> self . keys @ == ks0 && self . states @ == st0 && self . values @ == vs0 , forall | x : int | vx_n1 <= x < first_probe && self . states @ [ x ] > 0 ==> self . values @ [ x ] > 0 , decreases vx_n1 {
+#[verifier::loop_isolation(false)]
+while vx_n1 > vx_lo1 invariant eq_law :: < T > ( ) , self . wf ( ) , runs_short ( self . states @ ) , self . lg_length == lg , self . load_threshold == old ( self ) . load_threshold , n == self . states @ . len ( ) , n == pow2 ( lg as nat ) , fshape ( ks0 , vs0 , st0 , lg ) , 0 <= vx_lo1 <= vx_n1 <= first_probe < n , vx_lo1 == 0 , self . states @ [ first_probe as int ] == 0 , keep_inv ( ks0 , vs0 , st0 , self . keys @ , self . values @ , self . states @ ) , self . num_active <= old ( self ) . num_active , self . num_active == old ( self ) . num_active ==> self . keys @ == ks0 && self . states @ == st0 && self . values @ == vs0 , forall | x : int | vx_n1 <= x < first_probe && self . states @ [ x ] > 0 ==> self . values @ [ x ] > 0 , decreases vx_n1 {
 vx_n1 -= 1 ;
 let probe = vx_n1 ;
 if self . states [ probe ] > 0 && self . values [ probe ] == 0 {
@@ -489,7 +491,7 @@ lemma_keep_step ( ks0 , vs0 , st0 , ks , vs , st , self . keys @ , self . values
 }
 let mut vx_n2 = len ;
 let vx_lo2 = first_probe ;
-while vx_n2 > vx_lo2 invariant eq_law :: < T > ( ) , self . wf ( ) , runs_short ( self . states @ ) , self . lg_length == lg , self . load_threshold == old ( self ) . load_threshold , n == self . states @ . len ( ) , n == pow2 ( lg as nat ) , fshape ( ks0 , vs0 , st0 , lg ) , 0 <= vx_lo2 <= vx_n2 <= n , vx_lo2 == first_probe , first_probe < n , len == n , self . states @ [ first_probe as int ] == 0 , keep_inv ( ks0 , vs0 , st0 , self . keys @ , self . values @ , self . states @ ) , self . num_active <= old ( self ) . num_active , self . num_active == old ( self ) . num_active ==> self . keys @ == ks0 && self . states @ == st0 && self . values @ == vs0 , forall | x : int | ( vx_n2 <= x < n || 0 <= x < first_probe ) && self . states @ [ x ] > 0 ==> self . values @ [ x ] > 0 , decreases vx_n2 {
+while vx_n2 > vx_lo2 invariant eq_law :: < T > ( ) , self . wf ( ) , runs_short ( self . states @ ) , self . lg_length == lg , self . load_threshold == old ( self ) . load_threshold , n == self . states @ . len ( ) , n == pow2 ( lg as nat ) , fshape ( ks0 , vs0 , st0 , lg ) , 0 <= vx_lo2 <= vx_n2 <= n , vx_lo2 == first_probe , first_probe < n , self . states @ [ first_probe as int ] == 0 , keep_inv ( ks0 , vs0 , st0 , self . keys @ , self . values @ , self . states @ ) , self . num_active <= old ( self ) . num_active , self . num_active == old ( self ) . num_active ==> self . keys @ == ks0 && self . states @ == st0 && self . values @ == vs0 , forall | x : int | ( vx_n2 <= x < n || 0 <= x < first_probe ) && self . states @ [ x ] > 0 ==> self . values @ [ x ] > 0 , decreases vx_n2 {
 vx_n2 -= 1 ;
 let probe = vx_n2 ;
 if self . states [ probe ] > 0 && self . values [ probe ] == 0 {
